@@ -616,6 +616,29 @@ func iCmp(op string, a, b Int) Bool {
 		}
 		return symBool(eq)
 	}
+	// ordering of two 64-bit values with Int twins and constant offsets: exact two's-complement wrap in the Int domain
+	if a.Signed && a.W == 64 && b.W == 64 && (op == "<" || op == "<=" || op == ">" || op == ">=") && (a.RI != "" || a.IsC) && (b.RI != "" || b.IsC) && !(a.IsC && b.IsC) && ((!a.IsC && a.Off != 0) || (!b.IsC && b.Off != 0)) {
+		wrapped := func(v Int) string {
+			if v.IsC {
+				if v.sval() < 0 {
+					return fmt.Sprintf("(- %d)", -v.sval())
+				}
+				return fmt.Sprint(v.sval())
+			}
+			if v.Off == 0 {
+				return v.RI
+			}
+			off := int64(v.Off)
+			var o string
+			if off < 0 {
+				o = "(- " + new(big.Int).Neg(big.NewInt(off)).String() + ")"
+			} else {
+				o = fmt.Sprint(off)
+			}
+			return "(- (mod (+ " + v.RI + " " + o + " 9223372036854775808) 18446744073709551616) 9223372036854775808)"
+		}
+		return symBool("(" + op + " " + wrapped(a) + " " + wrapped(b) + ")")
+	}
 	if a.Signed && (a.RI != "" || a.IsC) && (b.RI != "" || b.IsC) && a.Off == 0 && b.Off == 0 {
 		ri := func(v Int) string {
 			if v.IsC {
@@ -848,4 +871,22 @@ func wideFromInt(a Int) Wide {
 		return Wide{Sym: fmt.Sprintf("((_ sign_extend %d) %s)", wideW-a.W, a.T()), Bits: a.W}
 	}
 	return Wide{Sym: fmt.Sprintf("((_ zero_extend %d) %s)", wideW-a.W, a.T()), Bits: a.W + 1}
+}
+
+// riFull: an SMT Int term for the whole signed 64-bit value (base twin plus constant offset, wrapped), or "".
+func riFull(v Int) string {
+	if v.IsC || v.RI == "" || !v.Signed || v.W != 64 {
+		return ""
+	}
+	if v.Off == 0 {
+		return v.RI
+	}
+	off := int64(v.Off)
+	var o string
+	if off < 0 {
+		o = "(- " + new(big.Int).Neg(big.NewInt(off)).String() + ")"
+	} else {
+		o = fmt.Sprint(off)
+	}
+	return "(- (mod (+ " + v.RI + " " + o + " 9223372036854775808) 18446744073709551616) 9223372036854775808)"
 }
